@@ -197,7 +197,7 @@ class OpenModel:
         self.dec_out = [call_outcome(P, cn) for cn in self.decodes]
         # the loop over the sorted chunk ids: `next` whose element flows into the chunk file open
         self.file_opens = [n for n in P.calls(r"fs::OpenOptions::open$")
-                           if not contains(event_args(g, n)[0], lambda x: call_is(x, r"OpenOptions::(create|create_new|truncate)$"))]
+                           if not creates_file(g, n, ("create", "create_new", "truncate"))]
         self.sorts = P.calls(r"slice::<impl \[T\]>::(sort|sort_unstable|sort_by|sort_by_key)$")
         nexts = P.calls(NEXT_RX)
         self.chunk_next = []
